@@ -408,3 +408,51 @@ ASSUMPTIONS = [
     "asyncio is trusted behind the contract stubs: a cancelled task/future does not continue, asyncio.timeout cancels what it guards, locks are mutually exclusive, queues are FIFO, tasks switch only at awaits; interleavings inside one await are represented by 'the awaited object completes with any admissible value, times out, or the connection closes'",
     "link loss/duplication is represented by arbitrary per-call inputs, not by a device model",
 ]
+
+
+# ------------------------------------------------------------------ opening and closing a connection
+
+
+class Hook:
+    def __call__(self):
+        ghost("hook").append(1)
+
+
+@lemma("C43", params=dict(c=CONN))
+def connect_succeeds_only_after_the_connect_frame_went_out(c):
+    """P2PConnection.connect(): exactly one T_Connect to the peer; the connection counts as open only if
+    sending it succeeded, otherwise the response waiter is cancelled and a management error raised."""
+    assume(not c._connected)
+    rw = c._response_waiter
+    ok = True
+    try:
+        run(c.connect())
+    except ManagementConnectionError:
+        ok = False
+    sent = ghost("sent")
+    assert len(sent) == 1 and isinstance(sent[0].tpci, tpci.TConnect) and sent[0].destination_address == c.address
+    assert c._connected == ok
+    if not ok and rw.state == PENDING:
+        assert False, "response waiter left pending after a failed connect"
+
+
+@lemma("C43", params=dict(c=CONN))
+def disconnect_closes_and_releases_everything(c):
+    """P2PConnection.disconnect(), any state: on a connection the peer already closed nothing is sent and
+    ManagementConnectionRefused is raised; otherwise exactly one T_Disconnect goes out; in every case the
+    connection is closed afterwards, no waiter stays pending (a request still waiting fails at once) and
+    the connection is removed from the management table exactly once."""
+    c.disconnect_hook = Hook()
+    was = c._connected
+    aw, rw = c._ack_waiter, c._response_waiter
+    try:
+        run(c.disconnect())
+    except ManagementConnectionError:
+        pass
+    assert not c._connected and ghost("hook") == [1]
+    sent = ghost("sent")
+    if was:
+        assert len(sent) == 1 and isinstance(sent[0].tpci, tpci.TDisconnect) and sent[0].destination_address == c.address
+        assert rw.state != PENDING and (aw is None or aw.state != PENDING)
+    else:
+        assert sent == []
